@@ -24,15 +24,29 @@ def isSafeElem (cfg : Cfg) (tag : QName) (attrs : AttrList) : Bool :=
   cfg.safeTags.contains tag.text &&
     !(tag.loc == inputWord && pyLower (attrGet attrs typeWord) == passwordWord)
 
+def stripRefsFix : Nat → Str → Except Err Str
+  | 0, s => .ok s
+  | f + 1, s => do
+    let t ← stripentities s
+    if t = s then pure s else stripRefsFix f t
+
+/-- `decoded = stripentities(value); while decoded != value: …`: references are decoded until
+    none is left (every round that changes the text shortens it) -/
+def stripRefs (s : Str) : Except Err Str := stripRefsFix (s.length + 1) s
+
 /-- the body of the attribute loop: `none` = `continue` -/
 def sanAttr (cfg : Cfg) (a : QName × Str) : Except Err (Option (QName × Str)) := do
-  let v ← stripentities a.2
+  let v ← stripRefs a.2
   if !cfg.safeAttrs.contains a.1.text then pure none
   else if cfg.uriAttrs.contains a.1.text then
     pure (if isSafeUri cfg v then some (a.1, v) else none)
   else if a.1.text == styleWord then do
     let decls ← sanitizeCss cfg v
-    pure (if decls.isEmpty then none else some (a.1, Genshi.Str.join declSep decls))
+    if decls.isEmpty then pure none
+    else do
+      -- `if stripentities(value) != value: continue`
+      let back ← stripentities (Genshi.Str.join declSep decls)
+      pure (if back = Genshi.Str.join declSep decls then some (a.1, Genshi.Str.join declSep decls) else none)
   else pure (some (a.1, v))
 
 def sanAttrs (cfg : Cfg) : AttrList → Except Err AttrList
